@@ -205,7 +205,9 @@ def judge (ops outs : List String) : String :=
       match toks op with
       | "load" :: _ :: ss =>
         match ss.mapM parseSeries? with
-        | some l => go l ops outs (k + 1)
+        | some l =>
+          if out = s!"ok {l.length}" then go l ops outs (k + 1)
+          else s!"violation load-error op={k} out={out}"
         | none => "ok"
       | "select" :: srt :: mtoks =>
         match mtoks.mapM parseMatcher? with
